@@ -209,6 +209,11 @@ func Spec() *vf.Check {
 			cov["race_detector_enabled"] = vrt.RaceEnabled
 			cov["tla"] = map[string]interface{}{"tlc_distinct_states": m.Counters["tlc_distinct_states"], "tlc_model_edges": m.Counters["tlc_model_edges"],
 				"model_edges_exercised_by_implementation_traces": len(m.States), "implementation_traces_checked_against_model": m.Counters["impl_traces_checked_against_model"]}
+			if m.Counters["tla_part_unavailable"] > 0 {
+				cov["exhaustive"] = false
+				cov["tla"].(map[string]interface{})["available"] = false
+				fmt.Fprintf(vf.Stdout, "NOTE property=C07 the TLA+ part could not be evaluated (see coverage.notes); the other parts are unaffected\n")
+			}
 			if m.Counters["impl_traces_rejected_by_model"] > 0 {
 				cov["exhaustive"] = false
 				cov["tla"].(map[string]interface{})["conformant"] = false
